@@ -17,10 +17,13 @@ type monitors struct {
 	byWhom    map[uint64]int
 	seenSaved map[int]int // node id -> number of SavedBlock entries already examined
 	heights   map[int]uint64
+	c03       *c03state
+	c19       *c19state
+	c12       *c12state
 }
 
 func newMonitors(s *Sim) *monitors {
-	return &monitors{s: s, committed: map[uint64]common.Hash{}, byWhom: map[uint64]int{}, seenSaved: map[int]int{}, heights: map[int]uint64{}}
+	return &monitors{s: s, committed: map[uint64]common.Hash{}, byWhom: map[uint64]int{}, seenSaved: map[int]int{}, heights: map[int]uint64{}, c03: newC03(), c19: newC19(), c12: newC12()}
 }
 
 func firstLine(s string) string {
@@ -71,6 +74,27 @@ func sanitizeSig(s string) string {
 
 func (m *monitors) afterQuiescence() {
 	s := m.s
+	m.refreshIndex()
+	s.learnAll()
+	for id, n := range s.nodes {
+		if n == nil || s.isByz[id] || n.Stopped || n.Mgr.WaitSync() {
+			continue
+		}
+		rs := rsOf(n)
+		m.observe(n, rs)
+		m.checkProposer(n, rs)
+	}
+	if s.res.Failed() {
+		return
+	}
+	m.checkAcceptance()
+	if s.res.Failed() {
+		return
+	}
+	m.checkSignatures()
+	if s.res.Failed() {
+		return
+	}
 	for id, n := range s.nodes {
 		if n == nil || s.isByz[id] {
 			continue
@@ -79,6 +103,10 @@ func (m *monitors) afterQuiescence() {
 		if !n.Stopped && n.ConsensusDead() {
 			f := strings.Join(kit.TakeFailures(), "\n---\n")
 			s.res.Violate("C04", "consensus-failure", "CONSENSUS FAILURE on a correct node: "+sanitizeSig(firstLine(f)), fmt.Sprintf("node %d: %s", id, f))
+			if lm := m.c03.lastMsg; lm != nil && m.c03.lastDst == id && (lm.Byz || lm.Src >= len(s.nodes)) {
+				s.res.Violate("C18", "peer-message-kills-consensus", "a peer message made the consensus routine of a correct node panic: "+sanitizeSig(firstLine(f)),
+					fmt.Sprintf("node %d after %s: %s", id, lm.Desc, f))
+			}
 			n.Stopped = true
 			return
 		}
@@ -99,5 +127,10 @@ func (m *monitors) afterQuiescence() {
 			}
 		}
 		m.seenSaved[id] = len(saved)
+		m.checkSaved(n)
+		if s.res.Failed() {
+			return
+		}
 	}
+	m.checkEvidence()
 }
